@@ -4,13 +4,13 @@
    keys of the non-deprecated entries (for SPDX: with an SPDX key), unchanged, and that deprecated
    entries and entries without an SPDX key are unknown. (2) For a table built from any index of the
    same format the constructor succeeds exactly when the retained entries are unambiguous (C14), and
-   (3) in any well-formed matcher a text whose lower-cased words are those of a stored name is
-   matched from its first to its last word with that name's value (C04, partial): with (1) this
-   covers every key and alias of the shipped tables in any letter case. That this match survives
-   the overlap filter and renders as the canonical key is decided by the sweep of the oracle over
-   all names of both bundled tables and by the correspondence on synthetic indexes. *)
+   (3) for every table, a text that spells a key or alias (any letter case and spacing) parses to the
+   symbol of the entry owning these words and renders as its canonical key (C04_recognise_alone):
+   with (1) this covers every name of the shipped tables. Validation of every name, the exception
+   flags and random compounds are swept by the oracle over both bundled tables; synthetic indexes go
+   through the correspondence. *)
 Require Import Model.Base Model.Expr Model.Split Model.Trie Model.LicTok Model.Licensing Model.Index.
-Require Import Proofs.Trie Proofs.Tables Gen.Index Tie.Index.
+Require Import Proofs.Trie Proofs.Tables Proofs.Recognise Gen.Index Tie.Index.
 
 Theorem C15_shipped_tables_build :
   is_ok (build_licensing ascii_oracle shipped_index) = true /\
@@ -45,3 +45,9 @@ Theorem C15_name_is_matched_partial : forall V O (tr : trie V), wf_trie tr -> fo
   In (occurrence_tok text wps (List.last wps {| pstart := 0%Z; ptext := [] |}) v) (t_iter O tr text).
 Proof. intros V O tr W text. exact (@whole_text_matched V O tr W text). Qed.
 Print Assumptions C15_name_is_matched_partial.
+
+Theorem C15_every_name_parses_to_its_entry : forall O T text sp s,
+  stored O (keyword_adds ++ flat_map (entry_adds O) T) (lwords O text) = Some (sp, VSym s) ->
+  parse O T false false false text = Ok (Some (Lit (Plain s))) /\ render (Lit (Plain s)) = key s.
+Proof. exact recognise_name. Qed.
+Print Assumptions C15_every_name_parses_to_its_entry.
